@@ -142,3 +142,11 @@ def main(drivers):
   except tlc.MachineryError as e:
     print('MACHINERY-FAILURE %s: %s' % (a.prop, e))
     sys.exit(2)
+  except SystemExit:
+    raise
+  except Exception:  # pylint: disable=broad-except
+    # an exception nobody classified is a failure of the machinery, not a verdict about the property
+    import traceback
+    traceback.print_exc()
+    print('MACHINERY-FAILURE %s: unexpected exception in the driver (see traceback)' % a.prop)
+    sys.exit(2)
